@@ -556,28 +556,53 @@ class Schema(ResolverMap):
             query_type=self.query_type,
             mutation_type=self.mutation_type,
             subscription_type=self.subscription_type,
+            # Keep the types which cannot be reached from the root types.
+            types=[t for t in self.types.values() if t not in _PROTECTED_TYPES],
             nodes=self.nodes,
         )
 
         cloned._replace_types_and_directives(
             types={
-                t.name: copy.copy(t)
+                t.name: _clone_type(t)
                 for t in self.types.values()
-                if (
-                    t not in SPECIFIED_SCALAR_TYPES
-                    and t not in INTROPSPECTION_TYPES
-                )
+                if t not in _PROTECTED_TYPES
             },
             directives={
-                d.name: copy.copy(d)
+                d.name: _clone_directive(d)
                 for d in self.directives.values()
                 if d not in SPECIFIED_DIRECTIVES
             },
         )
 
         cloned.merge_resolvers(self)
+        cloned.default_resolver = self.default_resolver
+        cloned.default_resolvers.update(self.default_resolvers)
 
         return cloned
+
+
+def _clone_type(type_: NamedType) -> NamedType:
+    # Fields and arguments hold references to other types which are rewritten
+    # when the clone is healed: they must not be shared with the source schema.
+    cloned = copy.copy(type_)
+    if isinstance(cloned, (ObjectType, InterfaceType)):
+        cloned.fields = [_clone_field(f) for f in cloned.fields]
+    elif isinstance(cloned, InputObjectType):
+        cloned.fields = [copy.copy(f) for f in cloned.fields]
+    return cloned
+
+
+def _clone_field(field: Any) -> Any:
+    cloned = copy.copy(field)
+    cloned.arguments = [copy.copy(a) for a in field.arguments]
+    return cloned
+
+
+def _clone_directive(directive: Directive) -> Directive:
+    cloned = copy.copy(directive)
+    cloned.arguments = [copy.copy(a) for a in directive.arguments]
+    cloned.argument_map = {a.name: a for a in cloned.arguments}
+    return cloned
 
 
 def _build_directive_map(maybe_directives: List[Any]) -> Dict[str, Directive]:
